@@ -20,6 +20,14 @@ seeded random sleeps at the shim points and (b) as a watchdog that turns a hang 
 violation.
 
 One recorded event = one PlusCal label step (no silent steps), see Trace_SelectorThread.tla.
+
+User fds are registered as bare ints (as IOLoop.add_handler does); scenarios also close fds after
+unregistering them, so the EBADF fallback of _run_select is exercised for real (`sel_err` events).
+About 15 % of the runs shrink the waker's send buffer so that _wake_selector hits BlockingIOError.
+
+The same shim points double as *gates* for the spec -> code direction (harness/selthread_s2c.py):
+with a controller attached every thread parks in `Harness.gate(name)` before the event `name` and
+is released one step at a time along a TLC behaviour.
 """
 import asyncio
 import random
